@@ -3,6 +3,7 @@ package main
 // Library models, part 2: http.Header, bytes.Buffer, io, sync.Pool, connect errors.
 
 import (
+	"fmt"
 	"go/token"
 	"go/types"
 )
@@ -146,9 +147,15 @@ func init() {
 		n := x.vc.Name(Ite(Le(s.Len, l), s.Len, l), "rdn")
 		x.setBufLen(st, b, x.vc.Name(Sub(l, n), "blen"))
 		x.havocArgs(fr, st, []Value{s}, nil)
-		e := x.freshErr("rderr")
 		// io.EOF iff the buffer was empty and the destination is non-empty
-		x.assume(st, Eq(Neq(e.Tag, IntLit(0)), And(Eq(l, IntLit(0)), Gt(s.Len, IntLit(0)))))
+		isEOF := x.vc.Name(And(Eq(l, IntLit(0)), Gt(s.Len, IntLit(0))), "bufeof")
+		e := x.freshErr("rderr")
+		if g := x.eng.globalNamed("io", "EOF"); g != nil {
+			eof := x.loadGlobal(st, g, nil).(VIface)
+			e = VIface{x.vc.Name(Ite(isEOF, eof.Tag, IntLit(0)), "rderr.t"), x.vc.Name(Ite(isEOF, eof.Val, IntLit(0)), "rderr.v")}
+		} else {
+			x.assume(st, Eq(Neq(e.Tag, IntLit(0)), isEOF))
+		}
 		return VStruct{F: []Value{VTerm{n}, e}}, true
 	})
 	regModel("(*bytes.Buffer).Bytes", func(x *Exec, fr *Frame, st *State, a []Value, pos token.Pos, rt types.Type) (Value, bool) {
@@ -249,6 +256,15 @@ func init() {
 		ref := x.newRef(fr)
 		h := x.heapGet(st, kConnCode, arrOf(SInt))
 		x.heapSet(st, kConnCode, Store(h, ref, tOf(a[0])))
+		// errors.Is on the new error: itself, or whatever the wrapped error is
+		if u, ok := a[1].(VIface); ok {
+			tag := IntLit(x.connErrTag())
+			x.vc.ctr++
+			ta := fmt.Sprintf("tt!q%d", x.vc.ctr)
+			tb := fmt.Sprintf("tv!q%d", x.vc.ctr)
+			x.vc.Assert(Term{fmt.Sprintf("(forall ((%s Int) (%s Int)) (! (=> (errIs %s %s %s %s) (or (and (= %s %s) (= %s %s)) (errIs %s %s %s %s))) :pattern ((errIs %s %s %s %s))))",
+				ta, tb, tag.S, ref.S, ta, tb, ta, tag.S, tb, ref.S, u.Tag.S, u.Val.S, ta, tb, tag.S, ref.S, ta, tb), SBool})
+		}
 		return VTerm{ref}, true
 	}
 	regModel("connectrpc.com/connect.NewError", newErr)
